@@ -261,7 +261,25 @@ FIXED = [
     ("JSON.parse('{\"a\":1,\"a\":2}').a", 2), ("JSON.parse(' [1 , 2 ] ').length", 2), ("JSON.parse('\"\\\\u00e9\"')", "é"), ("JSON.parse('1e400')", float("inf")),
     ("var r; try { JSON.parse('{\"a\":1,}') } catch (e) { r = e.name } r", "SyntaxError"), ("JSON.parse('12345678901234567890') === 12345678901234567000", True),
     ("JSON.stringify(JSON.parse('[1.0, 10, 1e2, -0, 0.10]'))", "[1,10,100,0,0.1]"),
+    # a SyntaxError raised by JSON.parse inside a callback run by a built-in is caught where the script catches it
+    ("[1, 2].map(function (x) { try { JSON.parse('{bad'); return 'no'; } catch (e) { return e.name + x; } }).join()", "SyntaxError1,SyntaxError2"),
+    ("var n = 0; [1, 2, 3].forEach(function (x) { try { JSON.parse('[1,'); } catch (e) { n += x; } }); n", 6),
+    ("[3, 1, 2].sort(function (a, b) { try { JSON.parse('}'); } catch (e) { return a - b; } return 0; }).join()", "1,2,3"),
+    ("'ab'.replace(/./g, function (m) { try { JSON.parse(m); return '?'; } catch (e) { return e.name.length; } })", "1111"),
+    ("var r = []; try { [1, 2].forEach(function (x) { r.push(x); JSON.parse('nope'); }); } catch (e) { r.push(e.name); } r.join()", "1,SyntaxError"),
+    ("[1].map(function () { return JSON.stringify(JSON.parse('[[],[],{}]')); })[0]", "[[],[],{}]"),
+    # shared (acyclic) parts are serialised at every occurrence; only real cycles are refused
+    ("var e = []; JSON.stringify([e, e])", "[[],[]]"), ("var s = {x: []}; JSON.stringify([s, s])", '[{"x":[]},{"x":[]}]'),
+    ("var e = {}; JSON.stringify({a: e, b: e, c: [e, [e]]})", '{"a":{},"b":{},"c":[{},[{}]]}'),
+    ("var a = []; for (var i = 0; i < 300; i++) a.push([]); JSON.stringify(a).length", 901),
+    ("var e = []; var o = {p: e, q: [e, {r: e}]}; JSON.stringify([o, o])", '[{"p":[],"q":[[],{"r":[]}]},{"p":[],"q":[[],{"r":[]}]}]'),
+    ("var a = [[]]; a[0].push(a); var r; try { JSON.stringify(a); r = 'no'; } catch (e) { r = e.name; } r", "TypeError"),
 ]
+# number texts: the parsed value is the double nearest to the text (never an exact big integer)
+NUMBER_TEXTS = ["9007199254740992", "9007199254740993", "9007199254740995", "-9007199254740993", "9999999999999999", "99999999999999999", "123456789012345678", "1234567890123456789",
+                "4503599627370497", "900719925474099", "18014398509481985", "1000000000000000128", "295147905179352830000", "0.30000000000000004", "1e21", "1e-7", "123e-20", "-0", "-0.0", "5e-324", "2e-324",
+                "1.7976931348623157e308", "1.7976931348623159e308", "1e309", "0.1e1", "100e-2", "9007199254740993.0", "9007199254740993e0"]
+
 
 
 @groups.group(id="C19.bounded", prop="C19", kind="B", functions=["microjs.context:Context._create_json_object"])
@@ -285,6 +303,14 @@ def c19_bounded(tier="quick", seed=0):
         acc, val = py_accepts(t)
         pcases.append((t, acc, val))
     fixed = [(s, w) for s, w in FIXED if w is not None or s.startswith("JSON.stringify(undefined)")]
+    import specs.es_core as CORE
+    for t in NUMBER_TEXTS:
+        x = float(t)
+        for wrap in ("%s", "[%s]", '{"k": %s}'):
+            txt = wrap % t
+            sel = {"%s": "v", "[%s]": "v[0]", '{"k": %s}': "v.k"}[wrap]
+            fixed.append((f"var v = JSON.parse({_js_string(txt)}); var n = {sel}; [typeof n, String(n), n === Number({_js_string(t)}), JSON.stringify(n), n % 2 === 1 && n > 9007199254740992]",
+                          ["number", CORE.number_to_string(x), True, "null" if x in (float("inf"), float("-inf")) else CORE.number_to_string(x), False]))
     jobs = []
     for kind, items in (("stringify", strg), ("roundtrip", rt), ("parse", pcases), ("fixed", fixed)):
         for i in range(8):
